@@ -3,7 +3,7 @@
 
 use crate::core::*;
 use crate::enumerate::*;
-use rsdd::repr::{Cnf, DTree, VTree, VTreeManager, VarLabel, VarOrder};
+use rsdd::repr::{Cnf, DTree, Literal, VTree, VTreeManager, VarLabel, VarOrder};
 use serde_json::{json, Value};
 use std::collections::BTreeSet;
 
@@ -157,8 +157,44 @@ fn check_cnf_case(clauses: &[Clause], elim: &[usize]) -> Option<(String, String)
     None
 }
 
-fn check_orders_of(clauses: &[Clause]) -> Option<(String, String)> {
+fn check_orders_of(clauses: &[Clause], derived: bool) -> Option<(String, String)> {
     let cnf: Cnf = to_cnf(clauses);
+    if let Some(e) = check_orders_obj(&cnf, clauses) {
+        return Some(e);
+    }
+    // formulas have histories: the orders of a formula obtained by conditioning a parent that
+    // has already produced its orders (above), and the orders asked for a second time, must be
+    // as well formed as those of a fresh formula
+    if !derived {
+        return None;
+    }
+    // (every occurring variable and one that does not occur; wide managers have > 100 of those)
+    let mut vars: Vec<usize> = clauses.iter().flat_map(|c| c.iter().map(|l| l.0)).collect::<BTreeSet<usize>>().into_iter().collect();
+    if let Some(free) = (0..cnf.num_vars()).find(|v| !vars.contains(v)) {
+        vars.push(free);
+    }
+    for v in vars {
+        for pol in [true, false] {
+            let child = match guarded(|| cnf.condition(Literal::new(VarLabel::new(v as u64), pol))) {
+                Ok(c) => c,
+                Err(_) => continue, // conditioning itself is C15's
+            };
+            let cl: Vec<Clause> = child.clauses().iter().map(|c| c.iter().map(|l| (l.label().value_usize(), l.polarity())).collect()).collect();
+            if cl.is_empty() {
+                continue;
+            }
+            if let Some((k, e)) = check_orders_obj(&child, &cl) {
+                return Some((k, format!("formula obtained by condition(x{}={}) from the queried parent (it holds {}): {}", v + 1, pol, cnf_json(&cl), e)));
+            }
+        }
+    }
+    if let Some((k, e)) = check_orders_obj(&cnf, clauses) {
+        return Some((k, format!("second round of order queries on the same formula: {}", e)));
+    }
+    None
+}
+
+fn check_orders_obj(cnf: &Cnf, clauses: &[Clause]) -> Option<(String, String)> {
     let nv = cnf.num_vars();
     if let Some(e) = check_order(&cnf.linear_order(), nv, "linear_order") {
         return Some(("order-linear".into(), e));
@@ -441,7 +477,7 @@ pub fn run(ctx: &Ctx) -> Report {
             for clauses in chunk.iter() {
                 r.states += 1;
                 r.transitions += 1;
-                if let Some((k, w)) = check_orders_of(clauses) {
+                if let Some((k, w)) = check_orders_of(clauses, ctx.tier == Tier::Thorough || r.states % 4 == 1) {
                     r.violation(format!("wellformed:{}", k), format!("cnf {}: {}", cnf_json(clauses), w), json!({"kind": "orders", "cnf": cnf_json(clauses)}));
                 }
                 if clauses.is_empty() {
@@ -522,7 +558,7 @@ pub fn replay(_ctx: &Ctx, case: &Value) -> Report {
     match case["kind"].as_str() {
         Some("orders") => {
             let c = cnf_from_json(&case["cnf"]);
-            if let Some((k, w)) = check_orders_of(&c) {
+            if let Some((k, w)) = check_orders_of(&c, true) {
                 rep.violation(format!("wellformed:{}", k), w, case.clone());
             }
         }
